@@ -358,7 +358,7 @@ impl Check for C04 {
         for (ei, ev) in trace.events.iter().enumerate() {
             let t = ev.clock.base();
             if t.div_euclid(86400 * NS) != last_t.div_euclid(86400 * NS) { rep.count("clock.advance_over_midnight"); }
-            if t != last_t { rep.count("clock.advance_between_ops"); }
+            if t > last_t { rep.count("clock.advance_between_ops"); } else if t < last_t { rep.count("clock.step_back_between_ops"); }
             last_t = t;
             match &ev.op {
                 Op::Admin(op) => {
